@@ -439,131 +439,6 @@ func boolWeb(v ssa.Value) map[ssa.Value]bool {
 	return web
 }
 
-// flagRaisedOnlyAfterSwallowedNewline: every `true` flowing into the flag's web comes from a block
-// guarded by a second boolean flag; every `true` flowing into that second flag's web comes from a
-// block under the newline test from which the line counter reaches the loop header unchanged.
-func flagRaisedOnlyAfterSwallowedNewline(web map[ssa.Value]bool, underNewline func(*ssa.BasicBlock) bool, linePhi *ssa.Phi, inLoop func(*ssa.BasicBlock) bool) (bool, string) {
-	raises := 0
-	for w := range web {
-		phi := w.(*ssa.Phi)
-		for k, e := range phi.Edges {
-			cst, ok := e.(*ssa.Const)
-			if !ok || cst.Value == nil || cst.Value.String() != "true" {
-				continue
-			}
-			raises++
-			pb := phi.Block().Preds[k]
-			var second ssa.Value
-			for _, f := range core.FactsAt(pb) {
-				if ph, ok := f.Cond.(*ssa.Phi); ok && f.Truth && isBool(ph.Type()) && !web[ph] {
-					second = ph
-				}
-			}
-			if second == nil {
-				return false, "the pending-newline flag is raised on a path that is not guarded by the swallowed-newline flag"
-			}
-			web2 := boolWeb(second)
-			n2 := 0
-			for w2 := range web2 {
-				phi2 := w2.(*ssa.Phi)
-				for k2, e2 := range phi2.Edges {
-					c2, ok := e2.(*ssa.Const)
-					if !ok || c2.Value == nil || c2.Value.String() != "true" {
-						continue
-					}
-					n2++
-					pb2 := phi2.Block().Preds[k2]
-					if !underNewline(pb2) {
-						return false, "the swallowed-newline flag is raised outside the newline test"
-					}
-					// on that path the line counter must be unchanged: the header phi's edge from pb2 (or the
-					// same-block phi of the line web) carries the counter without increment
-					if !lineUnchangedFrom(pb2, phi2.Block(), linePhi) {
-						return false, "the swallowed-newline flag is raised on a path that also advances the line counter"
-					}
-				}
-			}
-			if n2 == 0 {
-				return false, "the swallowed-newline flag is never raised"
-			}
-		}
-	}
-	if raises == 0 {
-		return false, "the pending-newline flag is never raised"
-	}
-	return true, "flag chain: newline consumed without increment -> swallowed-newline flag -> pending flag -> deferred increment"
-}
-
-// lineUnchangedFrom: in block `merge`, the phi of the line web has, for predecessor pb, a value with zero increments.
-func lineUnchangedFrom(pb, merge *ssa.BasicBlock, linePhi *ssa.Phi) bool {
-	for _, in := range merge.Instrs {
-		phi, ok := in.(*ssa.Phi)
-		if !ok {
-			continue
-		}
-		if !sameWeb(phi, linePhi) {
-			continue
-		}
-		for k, pr := range merge.Preds {
-			if pr == pb {
-				e := phi.Edges[k]
-				return e == linePhi || isPhiOnly(e, linePhi, 0)
-			}
-		}
-	}
-	return false
-}
-
-func sameWeb(a, b *ssa.Phi) bool {
-	if a == b {
-		return true
-	}
-	seen := map[ssa.Value]bool{}
-	var walk func(x ssa.Value) bool
-	walk = func(x ssa.Value) bool {
-		if x == b {
-			return true
-		}
-		if seen[x] {
-			return false
-		}
-		seen[x] = true
-		switch y := x.(type) {
-		case *ssa.Phi:
-			for _, e := range y.Edges {
-				if walk(e) {
-					return true
-				}
-			}
-		case *ssa.BinOp:
-			return walk(y.X)
-		}
-		return false
-	}
-	return walk(a)
-}
-
-func isPhiOnly(v ssa.Value, target *ssa.Phi, depth int) bool {
-	if v == target {
-		return true
-	}
-	if depth > 6 {
-		return false
-	}
-	if phi, ok := v.(*ssa.Phi); ok {
-		for _, e := range phi.Edges {
-			if e == phi {
-				continue
-			}
-			if !isPhiOnly(e, target, depth+1) {
-				return false
-			}
-		}
-		return true
-	}
-	return false
-}
-
 // isLineParam: parameter i of f is stored into a Line/StartLine/EndLine field, or passed on to such a parameter.
 func isLineParam(f *ssa.Function, i int, depth int) bool {
 	if depth > 3 || i >= len(f.Params) || len(f.Blocks) == 0 {
